@@ -297,6 +297,9 @@ def rule_poll(ctx):
         ctx.holds("C17.POLL", poll.short, "sleep(polling_delay); while flag unset: send getProperties(device, name); sleep(polling_interval)", fi=poll)
 
 
+# a wait is released by a callback in the client's registry: a raising callback registered earlier must not keep the event from it
+IMPORTS = [('C16', 'C16.CONTAIN'), ('C16', 'C16.FILTER')]
+
 RULES = [
     ("C17.COND", rule_cond, "release condition table; result stored only while the completion flag is unset (callback)"),
     ("C17.FLAG", rule_flag_timeout, "timeout recorded only while the flag is unset; sole writer of result.timeout"),
